@@ -305,6 +305,19 @@ def run_args(case):
                 t2.deleteEntry(t2.entries[0])
         if lst != before or lst2 != before:
             raise Violation("argument-aliased", f"editing the returned tier wrote into the caller's entry list: {lst} / {lst2}")
+    # a mutator called with an invalid option value on a colliding entry changes nothing
+    for mode, report in (("replace", "loud"), ("merge", None), ("bogus", "silence")):
+        t3 = cls("t", list(before), spec["minT"], spec["maxT"])
+        s0 = snap_tier(t3)
+        victim = t3.entries[0]
+        try:
+            with quiet():
+                t3.insertEntry(E(*[x for x in victim[:-1]], "new"), mode, report)
+        except Exception:  # noqa
+            if snap_tier(t3) != s0:
+                raise Violation("not-atomic:insert_entry", f"insertEntry(mode={mode!r}, collisionReportingMode={report!r}) raised but changed the tier from {s0} to {snap_tier(t3)}")
+        else:
+            raise Violation("invalid-option-accepted", f"insertEntry(mode={mode!r}, collisionReportingMode={report!r}) did not raise")
     data = [tuple(r) for r in case["rows"]]
     d0 = list(data)
     if is_int:
